@@ -543,6 +543,22 @@ def register_walk_general(R):
 
     W = X
     names, types = get_names(), get_types()
+
+    def stack_name():
+        """name of walk_ast's work list: the local initialised with a one-element list holding a pair (read from the current source)"""
+        import ast as _ast
+
+        from pyvc import extract
+
+        node, _, _ = extract.find(WALK)
+        found = [t.id for st in node.body if isinstance(st, (_ast.Assign, _ast.AnnAssign)) and isinstance(st.value, _ast.List) and len(st.value.elts) == 1
+                 and isinstance(st.value.elts[0], _ast.Tuple) for t in (st.targets if isinstance(st, _ast.Assign) else [st.target]) if isinstance(t, _ast.Name)]
+        return found[0] if len(found) == 1 else "stack"
+
+    try:
+        STACK = stack_name()
+    except Exception:  # reported when the carrier is verified
+        STACK = "stack"
     KINDS7 = dict(id="int", type="int", x="real", y="real", z="real", r="real", pid="int")
     NODE, TREE, ROOT = (lambda: X.at("NODE")), (lambda: X.at("TREE")), (lambda: X.at("ROOT"))
 
@@ -613,7 +629,7 @@ def register_walk_general(R):
 
     # ---- the stack as (length, node(i), pid(i))
     def stk(v):
-        st = v["stack"]
+        st = v[STACK]
         if st.items is None:
             return st.nz(), (lambda i: z3.Select(st.cols[0], i)), (lambda i: z3.Select(st.cols[1], i))
 
@@ -630,7 +646,7 @@ def register_walk_general(R):
 
     def pats(v, *ps):
         """quantifier patterns over stack entries: only when the stack is symbolic (a concrete stack gives terms without the bound variable)"""
-        return list(ps) if v["stack"].items is None else []
+        return list(ps) if v[STACK].items is None else []
 
     def beg(E, v, k):
         m, nd, _ = stk(v)
@@ -748,7 +764,7 @@ def register_walk_general(R):
                     ("kinds-and-tree-labels", pre_kinds), ("rank-counts-the-points-before-a-node", pre_rank), ("accumulators-as-from_ast-hands-them-over", pre_state)],
           ensures=[("exactly-one-row-per-point-and-ids-continue", post_counts), ("earlier-rows-untouched", j_old_rows), ("callers-type-stack-restored", post_typee)]
           + [(f"row-of-point-number-k-in-document-order-is-that-point/{c}", post_rows(c)) for c in COLS7],
-          loops={0: dict(invariant=INV, types={"stack": ["oref", "int"]})},
+          loops={0: dict(invariant=INV, types={STACK: ["oref", "int"]})},
           options=dict(extend_hook=X.walk_extend_hook),
           notes="ARBITRARY abstract AST in document order (symbolic size, depth, branch length); rows: id = first free id + number of points before, "
                 "type = label of the enclosing TREE (else the caller's current type), values = the point's, pid = id of the parent point or -1 (the given pid for the root)")
